@@ -113,7 +113,7 @@ def gen_launch(r):
             gs = [[r.choice(S) for _ in range(r.choice([0, 1, 2]))] for _ in range(r.choice([0, 1, 2]))]
             calls.append(["slices", gs])
             intent["slices"] += gs
-    return {"op": "launch", "calls": calls}, intent
+    return {"op": "launch", "calls": calls, "build_midway": r.random() < 0.4}, intent
 
 
 def gen_plan(r):
